@@ -12,7 +12,7 @@
 From Coq Require Import ZArith NArith List Bool String.
 From AGH Require Import Base.Run Model.QLogFile Model.QLog Model.QLogCodec Proofs.QLog Proofs.QLogCursor Proofs.QLogCodec
   Proofs.QLogCodecScan Proofs.QLogCodecDec Proofs.QLogCodecLoc Proofs.QLogFold Proofs.QLogCodecAll
-  Model.QLogServe Proofs.QLogServe.
+  Model.QLogServe Proofs.QLogServe Model.QLogRotate Proofs.QLogRotate.
 Import ListNotations.
 Local Open Scope Z_scope.
 
@@ -488,3 +488,44 @@ Example C07_toggle_example :
     = ROk [(1%N, ex_ip)] 1000.
 Proof. exact toggle_example. Qed.
 Print Assumptions C07_toggle_example.
+
+(** ** The periodic rotation check (Model/QLogRotate.v): decision and rename
+    are two steps with no file lock held; the DNS path may record and flush
+    in between. *)
+
+(** Run as a whole, the check rotates exactly when the current file exists and
+    its first record is at least the interval old; renaming a missing file
+    does nothing, so the code as it is and the code with the early return on a
+    missing file agree. *)
+Theorem C07_check_and_rotate : forall m ivl now s,
+  check_and_rotate m ivl now s = if due m ivl now s then rotate s else s.
+Proof. exact check_and_rotate_eq. Qed.
+Print Assumptions C07_check_and_rotate.
+
+Theorem C07_check_and_rotate_atomic_same : forall ivl now s,
+  check_and_rotate true ivl now s = check_and_rotate false ivl now s.
+Proof. exact check_and_rotate_same. Qed.
+Print Assumptions C07_check_and_rotate_atomic_same.
+
+(** With the early return (draft fix 19): whatever the DNS path records and
+    flushes between decision and rename, a file that gets renamed was due. *)
+Theorem C07_rotation_only_when_due_fixed : forall s ivl now mid,
+  forallb dns_op mid = true ->
+  renamed_is_due (rrun false s (RCheck ivl now :: map RPlain mid)).
+Proof. exact rotation_only_when_due_fixed. Qed.
+Print Assumptions C07_rotation_only_when_due_fixed.
+
+(** REFUTED for the code as it is (finding, reproduced against the real code
+    under strace delay injection): the check finds no querylog.json and goes
+    on; one DNS request records and flushes (mem_size 1); the rename moves that
+    5 ns old file over querylog.json.1: record 2, 15 ns old against an interval
+    of 1000, is gone without a clear.  The same history with the early return
+    keeps it. *)
+Theorem C07_rotation_only_when_due_refuted :
+  forallb dns_op w_mid = true /\
+  ~ renamed_is_due (rrun true w_state (RCheck 1000 1020 :: map RPlain w_mid)) /\
+  has_id 2 (flat w_state) = true /\ 1020 < e_time w_a2 + 1000 /\
+  has_id 2 (flat (rs (rrun true w_state (RCheck 1000 1020 :: map RPlain w_mid ++ [RRename])))) = false /\
+  has_id 2 (flat (rs (rrun false w_state (RCheck 1000 1020 :: map RPlain w_mid ++ [RRename])))) = true.
+Proof. exact rotation_only_when_due_refuted. Qed.
+Print Assumptions C07_rotation_only_when_due_refuted.
